@@ -96,6 +96,8 @@ SHAPES = {
         "return const"],
     ("NativeCodeGenerator", "_output_child_pre"): ["if finalize.src is not None:\n    self.write(finalize.src)"],
     ("NativeCodeGenerator", "_output_child_post"): ["if finalize.src is not None:\n    self.write(')')"],
+    ("NativeCodeGenerator", "_call_block_result_pre"): [],
+    ("NativeCodeGenerator", "_call_block_result_post"): ["pass"],
     ("NativeTemplate", "render"): [
         "if self.environment.is_async:\n    import asyncio\n    return asyncio.run(self.render_async(*args, **kwargs))",
         "ctx = self.new_context(dict(*args, **kwargs))",
